@@ -102,5 +102,9 @@ def setStride (l : List β) (start step : Nat) (v : List β) : List β :=
 def transpose (d : β) (m : List (List β)) : List (List β) :=
   (List.range (m.headD []).length).map (fun i => m.map (fun r => r.getD i d))
 
+/-- `a.mean()` of a 1-D array: the sum divided by the number of elements, the count formed in the carrier as a sum of ones
+    (for floats: exactly `float(n)`); an empty array gives `0/0` (numpy: nan with a warning) -/
+def mean [Add α] [Div α] [OfNat α 0] [OfNat α 1] (l : List α) : α := sum l / sum (l.map (fun _ => (1 : α)))
+
 end
 end Taurex.Gen.Np
